@@ -9,6 +9,7 @@ import (
 	"runtime/debug"
 
 	"github.com/cnotch/ipchub/av/codec"
+	"github.com/cnotch/ipchub/utils/vhook"
 	"github.com/cnotch/queue"
 	"github.com/cnotch/xlog"
 )
@@ -89,6 +90,7 @@ func (muxer *Muxer) process(vp, ap Packetizer) {
 	}()
 
 	for !muxer.closed {
+		vhook.At("conv.loop", muxer)
 		f := muxer.recvQueue.Pop()
 		if f == nil {
 			if !muxer.closed {
